@@ -44,7 +44,8 @@ ASSUMPTIONS = [
     "keyword passed in both calls (key_separates_keyword)",
     "a `**kwargs` parameter listed in config_args is outside the oracle (the statement does not say whether its entries "
     "are config values); such signatures are still compared with the model",
-    "argument values are plain picklable values (ints, strs, tuples) or JobInfo instances; Handles/Files (preprocessing) "
+    "argument values are plain picklable values (ints, strs, tuples, and the look-alikes 0/0.0/-0.0/False, 1/1.0/True, 2/2.0, "
+    "which count as different values) or JobInfo instances; Handles/Files (preprocessing) "
     "are not generated",
 ]
 RULE = ("signatures generated over all five parameter kinds (<= 7 parameters, defaults, config_args subsets, JobInfo "
@@ -83,6 +84,8 @@ class Vals:
         self.ji = {}
 
     def plain(self, n):
+        if n in LOOK:
+            return LOOK[n]
         r = n % 3
         return n if r == 0 else ("v%d" % n if r == 1 else (n, "t"))
 
@@ -97,8 +100,26 @@ class Vals:
         return self.jobinfo(h - 1000) if ji else self.plain(h)
 
 
+# look-alike argument values: equal under Python == / hash() but different values (type- and sign-aware), different pickles
+LOOK = {391: 0, 392: 0.0, 393: -0.0, 394: False, 395: 1, 396: 1.0, 397: True, 398: 2, 399: 2.0}
+LOOK_FAMILIES = [[391, 392, 393, 394], [395, 396, 397], [398, 399]]
+
+
 def fresh_plain(rng):
-    return (rng.randrange(1, 400), False)
+    if rng.random() < 0.12:
+        return (rng.choice(sorted(LOOK)), False)
+    return (rng.randrange(1, 391), False)
+
+
+def fresh_other(rng, old):
+    """a value with another hash than `old`; for a look-alike value usually one of its look-alikes (0 -> False, 1 -> 1.0 ...)"""
+    for fam in LOOK_FAMILIES:
+        if old[0] in fam and rng.random() < 0.7:
+            return (rng.choice([x for x in fam if x != old[0]]), False)
+    new = fresh_plain(rng)
+    while new[0] == old[0]:
+        new = fresh_plain(rng)
+    return new
 
 
 def gen_arg(rng, p_ji=0.08):
@@ -350,9 +371,7 @@ def mutations(rng, real, task, params, cfg, args, kw, wkw=None):
             continue
         name, kind = slot
         old = args[i]
-        new = fresh_plain(rng)
-        while new[0] == old[0]:
-            new = fresh_plain(rng)
+        new = fresh_other(rng, old)
         a2 = list(args)
         a2[i] = new
         if old[1]:
@@ -378,9 +397,7 @@ def mutations(rng, real, task, params, cfg, args, kw, wkw=None):
                 k3[j] = (k, (1000 + (old[0] - 1000 + 1) % 3, True))
                 yield ("jobinfo-swap-keyword-wrapper-only", True, args, k3, task, {"keyword": k})
             else:
-                new = fresh_plain(rng)
-                while new[0] == old[0]:
-                    new = fresh_plain(rng)
+                new = fresh_other(rng, old)
                 k2 = list(kw)
                 k2[j] = (k, new)
                 yield ("value-keyword-wrapper-only", False, args, k2, task, {"keyword": k, "slot": "wrapper function"})
@@ -389,9 +406,7 @@ def mutations(rng, real, task, params, cfg, args, kw, wkw=None):
         if slot is None:
             continue
         name, kind = slot
-        new = fresh_plain(rng)
-        while new[0] == old[0]:
-            new = fresh_plain(rng)
+        new = fresh_other(rng, old)
         k2 = list(kw)
         k2[j] = (k, new)
         if old[1]:
